@@ -22,6 +22,11 @@ ODD_RANGES = [b"next", b"not a range", b"git+https://x/y.git", b"file:../z", b"1
 
 MAX_FLAT = 10      # sort.Slice is an insertion sort (stable) up to 12 elements; the model sorts stably
 MAX_BUNDLED = 12
+# "large" universes (1 in 20) leave that range on purpose: 13-20 flattened dependencies and/or 13-20 bundled
+# entries in some response, where Go runs pdqsort and requirements with tying keys may come in another order
+# than from the model; such universes are judged order-insensitively (C18.py).
+LARGE_FLAT = 20
+LARGE_BUNDLED = 20
 
 
 def pick_name(rng, names):
@@ -44,13 +49,15 @@ def gen_requirement(rng, names, strict=False):
     return pick_name(rng, names), rng.choice(RANGES)
 
 
-def gen_deps(rng, names, budget, bundle_names=(), alias_of=None, strict=False):
+def gen_deps(rng, names, budget, bundle_names=(), alias_of=None, strict=False, many=False):
     """the sections of one package.json: keys are unique within a section (they are JSON object keys);
     the same key may occur in several sections"""
     sec = [[], [], [], []]
     bundle = []
     weights = [0.55, 0.15, 0.15, 0.15]
     n = rng.choice([0, 1, 1, 2, 2, 3, 3, 4, 5, 6])
+    if many:
+        n = rng.randrange(16, 30)          # collisions of keys within a section drop some
     n = min(n, budget)
     used = 0
     for _ in range(n):
@@ -91,10 +98,12 @@ def gen_deps(rng, names, budget, bundle_names=(), alias_of=None, strict=False):
     return dict(sec=sec, bundle=bundle)
 
 
-def gen_bundle_tree(rng, names, cls, strict=False):
+def gen_bundle_tree(rng, names, cls, strict=False, max_bundled=MAX_BUNDLED):
     """returns (entries, top_level_dir_names). cls: 'wf' | 'orphan' | 'dup' | 'noprefix'"""
     entries = []
     alias_of = {}
+    MAX_BUNDLED = max_bundled
+    large = max_bundled > 12
 
     def dirname():
         return rng.choice(names + ALIASES[:2])
@@ -117,14 +126,14 @@ def gen_bundle_tree(rng, names, cls, strict=False):
             e = dict(path=path, name=declared, version=rng.choice(VERSIONS), deps=None, dir=d, depth=depth)
             entries.append(e)
             kids = 0
-            if depth < 3 and rng.random() < (0.55 if depth == 1 else 0.4):
-                kids = rng.choice([1, 1, 2, 3])
+            if depth < 3 and rng.random() < ((0.55 if depth == 1 else 0.4) if not large else 0.8):
+                kids = rng.choice([1, 1, 2, 3] if not large else [2, 3, 4])
             child_dirs_before = len(entries)
             level(path + b"/", depth + 1, kids)
             child_dirs = [x["dir"] for x in entries[child_dirs_before:] if x["depth"] == depth + 1]
             e["deps"] = gen_deps(rng, names, 5, child_dirs, alias_of, strict)
 
-    level(b"", 1, rng.choice([1, 1, 2, 2, 3, 4]))
+    level(b"", 1, rng.choice([1, 1, 2, 2, 3, 4] if not large else [4, 5, 6, 7]))
     if cls in ("dup",) and len(entries) >= MAX_BUNDLED:
         entries = entries[:MAX_BUNDLED - 1]
     top = [e["dir"] for e in entries if e["depth"] == 1]
@@ -149,10 +158,14 @@ def gen_bundle_tree(rng, names, cls, strict=False):
     return entries[:MAX_BUNDLED], top, alias_of
 
 
-def gen_universe(rng, big=False, strict=False):
+def gen_universe(rng, big=False, strict=False, large=False, canon=0):
     """strict: every dependency names a package the service knows, every bundle tree is well formed,
-    the service never fails."""
+    the service never fails.  large: one version gets 13-20 flattened dependencies and/or 13-20 bundled
+    entries.  canon: how the service spells keys in its answers (bit0 other letter case for names, bit1
+    GetVersion drops build metadata)."""
     npk = rng.choice([2, 3, 3, 4, 4, 5, 6] + ([8, 10] if big else []))
+    if large:
+        npk = rng.choice([8, 9, 10, 11])
     pool = PLAIN + SCOPED
     names = rng.sample(pool, min(npk, len(pool)))
     if not any(n.startswith(b"@") for n in names):
@@ -164,6 +177,7 @@ def gen_universe(rng, big=False, strict=False):
         depnames.append(b"ghost")
     pkgs = []
     classes = {}
+    large_at = (rng.choice(names), rng.choice(["flat", "bundled", "both"])) if large else None
     for n in names:
         vers = []
         vs = rng.sample(VERSIONS, rng.choice([1, 1, 2, 2, 3, 4]))
@@ -171,10 +185,17 @@ def gen_universe(rng, big=False, strict=False):
         for v in vs:
             cls = "none"
             bundled, top, alias_of = [], [], {}
-            if rng.random() < 0.45:
+            lg = large_at is not None and large_at[0] == n and v == vs[0]
+            if lg and large_at[1] in ("bundled", "both"):
+                cls = "wf"      # (a duplicated path under an unstable sort has no defined winner)
+                bundled, top, alias_of = gen_bundle_tree(rng, depnames, cls, strict, LARGE_BUNDLED)
+            elif rng.random() < 0.45:
                 cls = "wf" if strict else rng.choices(["wf", "orphan", "dup", "noprefix"], [0.91, 0.03, 0.03, 0.03])[0]
                 bundled, top, alias_of = gen_bundle_tree(rng, depnames, cls, strict)
-            deps = gen_deps(rng, depnames, MAX_FLAT, top, alias_of, strict)
+            if lg and large_at[1] in ("flat", "both"):
+                deps = gen_deps(rng, depnames, LARGE_FLAT, top[:4], alias_of, strict, many=True)
+            else:
+                deps = gen_deps(rng, depnames, MAX_FLAT, top, alias_of, strict)
             vers.append(dict(version=v, default=(v == default) or (default is not None and rng.random() < 0.02),
                              deps=deps,
                              bundled=[dict(path=e["path"], name=e["name"], version=e["version"], deps=e["deps"])
@@ -184,7 +205,7 @@ def gen_universe(rng, big=False, strict=False):
         if not strict and rng.random() < 0.03:
             fail = rng.choice([1, 2, 4])
         pkgs.append(dict(name=n, fail=fail, vers=vers))
-    return dict(pkgs=pkgs), classes
+    return dict(pkgs=pkgs, canon=canon), classes
 
 
 def deps_sx(d):
@@ -196,7 +217,7 @@ def universe_sx(u):
               [[v["version"], 1 if v["default"] else 0, deps_sx(v["deps"]),
                 [[b["path"], b["name"], b["version"], deps_sx(b["deps"])] for b in v["bundled"]]]
                for v in p["vers"]]]
-             for p in u["pkgs"]]]
+             for p in u["pkgs"]]] + ([u["canon"]] if u.get("canon") else [])
 
 
 def path_pkgs(path):
